@@ -42,6 +42,10 @@ func zzBuild(a *zzAbs) ControlPacket {
 	switch a.typ {
 	case 1:
 		p := NewConnect()
+		if a.protoSet {
+			p.SetProtocolName(string(a.protoName))
+			p.SetProtocolVersion(a.protoVer)
+		}
 		p.SetKeepAlive(a.keepAlive)
 		p.SetCleanStart(a.connFlags&0x02 != 0)
 		p.SetClientID(string(a.clientID))
